@@ -629,9 +629,9 @@ def r6(run: Run, src, g, em, rt, forms):
                   f'the blank object has bases {bases} and overrides {sorted(defined & arith)}: a blank operand must be the int 0 in '
                   f'arithmetic', fact='int subclass, constructed without arguments, no arithmetic override', loc=cp.loc(ec))
     # the blank is constructed without arguments
-    ct = src.cls('CellTranslator')
-    fi = ct.methods.get('_set_cell_to_context')
-    consts = [n.value for n in ast.walk(fi.node) if isinstance(n, ast.Constant) and isinstance(n.value, str) and 'EmptyCell' in n.value]
+    from .common import normalized_method
+    fi, fn_norm = normalized_method(src, 'CellTranslator', '_set_cell_to_context')
+    consts = sorted({n.value for n in ast.walk(fn_norm) if isinstance(n, ast.Constant) and isinstance(n.value, str) and 'EmptyCell' in n.value})
     run.check(consts == ['self.EmptyCell()'], 'C01.R6', 'CellTranslator/blank', 'blank-construction',
               f'a blank cell is printed as {consts}', fact="'self.EmptyCell()'", loc=loc_of(fi.module.path, fi.node))
 
